@@ -131,6 +131,99 @@ class Effects:
         return out
 
 
+def enclosing_name_loops(fn, target):
+    """(S, y) for every `for y in S:` (both plain names) of fn whose body contains the node `target`, outermost first"""
+    out = []
+
+    def walk(stmts):
+        for st in stmts:
+            if not any(x is target for x in ast.walk(st)):
+                continue
+            if isinstance(st, ast.For) and isinstance(st.iter, ast.Name) and isinstance(st.target, ast.Name) \
+                    and any(x is target for b in st.body for x in ast.walk(b)):
+                out.append((st.iter.id, st.target.id, st))
+            for fld in ('body', 'orelse', 'finalbody', 'handlers'):
+                sub = getattr(st, fld, None)
+                if isinstance(sub, list):
+                    walk([h for h in sub if isinstance(h, ast.stmt)] + [b for h in sub if isinstance(h, ast.ExceptHandler) for b in h.body])
+            return
+    walk(fn.body)
+    return [(S, y) for (S, y, _st) in out]
+
+
+def _sequence_is_stable(fn, S):
+    """nothing in fn can change the elements of S: no S[..] store / delete, no method call on S, no augmented assignment; returns the position of
+    the last binding of S (a check of the whole sequence counts only when it comes after every binding), or None when S is not stable"""
+    last = (0, 0)
+    for x in ast.walk(fn):
+        if isinstance(x, ast.Name) and x.id == S and isinstance(x.ctx, (ast.Store, ast.Del)):
+            last = max(last, (x.lineno, x.col_offset))
+        elif isinstance(x, ast.Subscript) and isinstance(x.ctx, (ast.Store, ast.Del)) and isinstance(x.value, ast.Name) and x.value.id == S:
+            return False
+        elif isinstance(x, ast.Call) and isinstance(x.func, ast.Attribute) and isinstance(x.func.value, ast.Name) and x.func.value.id == S:
+            return False
+        elif isinstance(x, ast.AugAssign) and isinstance(x.target, ast.Name) and x.target.id == S:
+            return False
+    return last
+
+
+def validated_element_facts(fn, S, y, target):
+    """[(condition over y, truth)] known of every element y of the stable local sequence S at `target`, from whole-sequence checks that precede
+    the statement containing `target` in an enclosing block"""
+    last_bound = _sequence_is_stable(fn, S)
+    if not last_bound:
+        return []
+    facts = []
+
+    def sub(expr, x):
+        return Subst({x: ast.Name(id=y, ctx=ast.Load())}).visit(copy.deepcopy(expr)) if x != y else expr
+
+    def from_stmt(st):
+        # for x in S: if C(x): raise ...   (nothing else in the body)
+        if isinstance(st, ast.For) and isinstance(st.iter, ast.Name) and st.iter.id == S and isinstance(st.target, ast.Name) and not st.orelse \
+                and st.body and all(isinstance(b, ast.If) and not b.orelse and len(b.body) == 1 and isinstance(b.body[0], ast.Raise) for b in st.body):
+            for b in st.body:
+                if not any(isinstance(n, ast.NamedExpr) for n in ast.walk(b.test)):
+                    facts.append((sub(b.test, st.target.id), False))
+        # if any(C(x) for x in S): raise   /   if not all(P(x) for x in S): raise
+        if isinstance(st, ast.If) and not st.orelse and len(st.body) == 1 and isinstance(st.body[0], ast.Raise):
+            t, neg = st.test, False
+            if isinstance(t, ast.UnaryOp) and isinstance(t.op, ast.Not):
+                t, neg = t.operand, True
+            if isinstance(t, ast.Call) and isinstance(t.func, ast.Name) and t.func.id in ('any', 'all') and len(t.args) == 1 \
+                    and isinstance(t.args[0], (ast.GeneratorExp, ast.ListComp)) and len(t.args[0].generators) == 1:
+                gen = t.args[0].generators[0]
+                if isinstance(gen.iter, ast.Name) and gen.iter.id == S and isinstance(gen.target, ast.Name) and not gen.ifs and not gen.is_async:
+                    if t.func.id == 'any' and not neg:
+                        facts.append((sub(t.args[0].elt, gen.target.id), False))
+                    elif t.func.id == 'all' and neg:
+                        facts.append((sub(t.args[0].elt, gen.target.id), True))
+        # S = [float(v) for v in ...]: every element is a float (int(..) / str(..) alike)
+        if isinstance(st, ast.Assign) and len(st.targets) == 1 and isinstance(st.targets[0], ast.Name) and st.targets[0].id == S \
+                and isinstance(st.value, (ast.ListComp,)) or (isinstance(st, ast.Assign) and len(st.targets) == 1 and isinstance(st.targets[0], ast.Name)
+                                                              and st.targets[0].id == S and isinstance(st.value, ast.Call)
+                                                              and isinstance(st.value.func, ast.Name) and st.value.func.id in ('tuple', 'list')
+                                                              and len(st.value.args) == 1 and isinstance(st.value.args[0], (ast.GeneratorExp, ast.ListComp))):
+            comp = st.value if isinstance(st.value, ast.ListComp) else st.value.args[0]
+            e = comp.elt
+            if isinstance(e, ast.Call) and isinstance(e.func, ast.Name) and e.func.id in ('float', 'int', 'str') and len(e.args) == 1 and not e.keywords:
+                facts.append((ast.parse(f'isinstance({y}, {e.func.id})', mode='eval').body, True))
+
+    def walk(stmts):
+        for i, st in enumerate(stmts):
+            if any(x is target for x in ast.walk(st)):
+                for prev in stmts[:i]:
+                    if (prev.lineno, prev.col_offset) >= last_bound:        # the comprehension that binds S is its own last binding
+                        from_stmt(prev)
+                for fld in ('body', 'orelse', 'finalbody'):
+                    subl = getattr(st, fld, None)
+                    if isinstance(subl, list) and any(x is target for b in subl for x in ast.walk(b)):
+                        walk(subl)
+                return
+    walk(fn.body)
+    return facts
+
+
 # ----------------------------------------------------------------------------- facts (guard subsumption)
 class Facts:
     def __init__(self, prog, cls):
@@ -139,13 +232,28 @@ class Facts:
         self.atom = {}          # canonical text -> bool
         self.learned = []       # (node, truth)
         self.own = set()        # names bound to elements of the object's own containers
+        self.tpos = {}          # expression text -> [frozenset of type names]: isinstance(expr, (those)) is known to hold
+        self.tneg = {}          # expression text -> {type names}: isinstance(expr, T) is known not to hold
 
     def copy(self):
         f = Facts(self.prog, self.cls)
         f.atom = dict(self.atom)
         f.learned = list(self.learned)
         f.own = set(self.own)
+        f.tpos = {k: list(v) for k, v in self.tpos.items()}
+        f.tneg = {k: set(v) for k, v in self.tneg.items()}
         return f
+
+    @staticmethod
+    def _isinstance_parts(node):
+        """(text of the tested expression, frozenset of type names) of an isinstance(e, T) / isinstance(e, (T1, T2)) test, or None"""
+        if not (isinstance(node, ast.Call) and unparse(node.func) == 'isinstance' and len(node.args) == 2 and not node.keywords):
+            return None
+        t = node.args[1]
+        elts = t.elts if isinstance(t, ast.Tuple) else [t]
+        if not all(isinstance(e, (ast.Name, ast.Attribute)) for e in elts):
+            return None
+        return unparse(node.args[0]), frozenset(unparse(e) for e in elts)
 
     def _c(self, node):
         return canon(self.prog, self.cls, node) if self.cls else node
@@ -183,6 +291,13 @@ class Facts:
                 pos = ast.Compare(left=node.left, ops=[neg[type(op)]()], comparators=node.comparators)
                 self.atom[unparse(pos)] = not truth
                 return
+        ip = self._isinstance_parts(node)
+        if ip is not None:
+            if truth:
+                if ip[1] not in self.tpos.setdefault(ip[0], []):
+                    self.tpos[ip[0]].append(ip[1])
+            else:
+                self.tneg.setdefault(ip[0], set()).update(ip[1])
         self.atom[unparse(node)] = truth
 
     def ev(self, node):
@@ -241,6 +356,13 @@ class Facts:
         if isinstance(node, ast.Call) and unparse(node.func) == 'isinstance' and node.args and isinstance(node.args[0], ast.Name) \
                 and node.args[0].id in self.own:
             return True
+        ip = self._isinstance_parts(node)
+        if ip is not None:
+            # an instance of one of (A, B) is an instance of one of any larger tuple; not an instance of any of a tuple all of whose members are excluded
+            if any(p <= ip[1] for p in self.tpos.get(ip[0], ())):
+                return True
+            if ip[1] <= self.tneg.get(ip[0], set()):
+                return False
         return None
 
 
@@ -432,6 +554,13 @@ class RBE:
                             f.learn(cds[-1][0], not cds[-1][1])
             finally:
                 self._in_post_facts = False
+        # elements of a local sequence that was checked as a whole: `for x in S: if C(x): raise` / `if any(C(x) for x in S): raise` /
+        # `if not all(P(x) for x in S): raise` earlier in an enclosing block, S bound once and never mutated in this function; inside a later
+        # `for y in S:` the checks hold of y.  `S = [float(v) for v in S0]` makes every element a float.
+        if node.ast is not None:
+            for (S, y) in enclosing_name_loops(fn, node.ast):
+                for cond, truth in validated_element_facts(fn, S, y, node.ast):
+                    f.learn(cond, truth)
         # loop variables ranging over the object's own containers
         for st in ast.walk(fn):
             if isinstance(st, ast.For) and 'self.' in unparse(st.iter):
